@@ -455,6 +455,11 @@ def _ev(e, env):
         base = _ev(e.value, env)
         if isinstance(base, Raised) and e.attr == "__traceback__":
             return getattr(base, "mi_traceback", None)
+        import re as _re_mod
+        if isinstance(base, _re_mod.Pattern) and e.attr in ("sub", "subn", "match", "search", "fullmatch", "findall", "split", "pattern"):
+            return getattr(base, e.attr)          # a compiled regular expression: pure functions of strings
+        if isinstance(base, _re_mod.Match) and e.attr in ("group", "groups", "start", "end", "span", "groupdict"):
+            return getattr(base, e.attr)
         if isinstance(base, ModelObj):
             if e.attr not in base.attrs:
                 raise Raised("AttributeError")
